@@ -37,7 +37,8 @@ void random_data(void* data, size_t bytes) {
 }
 
 int64_t random_int(int64_t low, int64_t high) {
-  int64_t range = high - low + 1;
+  // Computed in uint64_t: high - low + 1 overflows int64_t when the range spans 2^63 values (e.g. 0..INT64_MAX)
+  uint64_t range = static_cast<uint64_t>(high) - static_cast<uint64_t>(low) + 1;
   if (range > 0xFFFFFFFF) {
     return low + (random_object<uint64_t>() % range);
   } else if (range > 0xFFFF) {
